@@ -2103,6 +2103,53 @@ fn main() {
             }
         }
     }
+    // (5a-conn) the validating transport: every combination of the request's CD / DO / AD flags and the upstream reply's
+    // AD / CD flags, for a secure positive answer, a secure name error, an insecure answer and a bogus one
+    {
+        let kinds: Vec<(&str, Rtype, Attack)> = vec![("www.zone.sec.", Rtype::A, Attack::None), ("nope.zone.sec.", Rtype::A, Attack::None),
+            ("ext.zone.sec.", Rtype::A, Attack::None), ("www.zone.sec.", Rtype::A, Attack::CorruptSig), ("txt.zone.sec.", Rtype::TXT, Attack::ForgeData)];
+        for (qs, qt, atk) in kinds {
+            let qn = nm(qs);
+            let (mut hr, _) = honest(&w, &qn, qt, 0);
+            if atk != Attack::None { let zk = w.zone_for(&qn, qt).key.as_ref(); mutate(&w, &mut hr, &atk, 0, zk); }
+            // the verdict of the validator for this reply (the header flags play no role in it)
+            let vst = verdict(&mut out, &ValidationContext::new(w.anchors(), Mock::new(w.clone(), quiet.clone())), "conn verdict", &qn, qt, &hr);
+            let Some(vst) = vst else { continue; };
+            for bits in 0..32u32 {
+                let (rcd, rdo, rad, uad, ucd) = (bits & 1 != 0, bits & 2 != 0, bits & 4 != 0, bits & 8 != 0, bits & 16 != 0);
+                idx += 1; if !out.wants(idx) { continue; }
+                let mut raw = Message::from_octets(build_msg(7, &qn, qt, &hr).as_slice().to_vec()).unwrap();
+                raw.header_mut().set_ad(uad); raw.header_mut().set_cd(ucd);
+                let raw = Message::from_octets(Bytes::from(raw.into_octets())).unwrap();
+                let mock = Mock::new(w.clone(), Script { attack: Attack::None, on_query: 0, pick: 0, raw: vec![(qn.clone(), qt.to_int(), raw)] });
+                let vc = Arc::new(ValidationContext::new(w.anchors(), mock.clone()));
+                let c = format!("conn {} {} {} {} {} {}", rcd as u8, rdo as u8, rad as u8, uad as u8, ucd as u8, st(vst));
+                let cc = format!("{} ({} {} {:?})", c, qn, qt, atk);
+                out.begin(&cc);
+                let res = catch_mut(|| rt.block_on(async {
+                    let conn = validator::Connection::<Mock, Vec<u8>, Mock>::new(mock.clone(), vc.clone());
+                    let mut req = query_msg(&qn, qt, rdo);
+                    req.header_mut().set_cd(rcd); req.header_mut().set_ad(rad);
+                    let mut rq = conn.send_request(req);
+                    rq.get_response().await
+                }));
+                match res {
+                    Err(p) => { out.case(&c, "Panic", true, "connection_flags"); out.check(false, "panic_validator", &cc, &p); }
+                    Ok(Err(_)) => { out.count("connection_error"); }
+                    Ok(Ok(m)) => {
+                        let has_dnssec = m.answer().map(|a| a.into_iter().chain(m.authority().unwrap()).any(|x| x.map_or(false, |x| matches!(x.rtype(), Rtype::RRSIG | Rtype::NSEC | Rtype::NSEC3)))).unwrap_or(false);
+                        let (ad, cd, sf) = (m.header().ad(), m.header().cd(), m.header().rcode() == Rcode::SERVFAIL);
+                        out.case(&c, &format!("ad={} cd={} servfail={} stripped={}", ad as u8, cd as u8, sf as u8, !has_dnssec as u8), ad || sf, "connection_flags");
+                        // the AD flag says: this validator found a valid chain.  Never for a reply it did not validate (CD in the
+                        // request), never for another verdict, never because the upstream said so
+                        out.check(!ad || (!rcd && vst == ValidationState::Secure), "ad_without_validation", &cc, &format!("AD=1 for a reply that was {}", if rcd { "not validated (CD request)".to_string() } else { format!("validated as {}", st(vst)) }));
+                        if !rcd && vst == ValidationState::Bogus { out.check(sf, "bogus_not_servfail", &cc, "a bogus reply was handed to the client"); }
+                        if !rcd && vst == ValidationState::Secure && (rdo || rad) { out.check(ad, "honest_not_secure", &cc, "secure reply without AD"); }
+                    }
+                }
+            }
+        }
+    }
     // (5b) NSEC3 name error with an incomplete closest-encloser proof
     {
         let z = w.zones.iter().find(|z| z.nsec3).unwrap();
@@ -2302,6 +2349,9 @@ fn main() {
             let ksig = sign(real, &keyset);
             rl.mock.0.script.lock().unwrap().raw = vec![(rl.apex.clone(), Rtype::DNSKEY.to_int(), build_msg(9, &rl.apex, Rtype::DNSKEY, &Resp { rcode: Rcode::NOERROR, answer: vec![RRset { rrs: keyset, sigs: vec![ksig] }], authority: vec![] }))];
             let t2 = now_u32();
+            // the controls expect the node to be still cached: only meaningful while the 300 s TTLs of the chain above it have
+            // not run out either (a long thorough-tier run gets here minutes later) - skip and count then
+            if !rl.must_expire && t2.wrapping_sub(rl.t1) > 120 { out.count("rollover_control_skipped_run_too_long"); continue; }
             let d2 = vec![rec(&rl.owner, 300, a([10, 0, 0, 2]))];
             let c = format!("e2e rollover ({}): {} A signed by the withdrawn key at {} (DNSKEY RRset validated at {})", rl.what, rl.owner, t2, rl.t1);
             out.oracle_case(&c, true, "e2e_rollover");
